@@ -594,3 +594,100 @@ class SchemaBake(Contract):
 
 
 CONTRACTS.append(SchemaBake())
+
+
+# ---- enum values are unique
+NoDup = z3.RecFunction('NoDuplicates', VL, BoolS)        # recursion from the end: no element occurs among the ones before it
+_nd = z3.Const('nd_l', VL)
+_nodup = lambda l: z3.If(length(l) <= 0, True, z3.And(NoDup(take(l, length(l) - 1)), z3.Not(mem(take(l, length(l) - 1), nth(l, length(l) - 1)))))
+z3.RecAddDefinition(NoDup, [_nd], _nodup(_nd))
+UNFOLD['NoDuplicates'] = _nodup
+
+
+class ValueUniqueness(Contract):
+    """_value_uniqueness: returns the values that occur more than once -- an empty list exactly when the values are pairwise different"""
+    key = 'tartiflette/schema/schema.py::_value_uniqueness'
+    property_ids = ('C12',)
+    params = ['values']
+
+    def args(self, en, names):
+        self.A = super().args(en, names)
+        return self.A
+
+    def pre(self, A, st):
+        return [('values', V.is_List(A['values']))]
+
+    def _inv(self, en, st, k, st0):
+        vs = V.items(self.A['values'])
+        seen = V.items(en.read(st.env['seen'], st))
+        double = V.items(en.read(st.env['double'], st))
+        return {'seen_is_the_prefix': seen == take(vs, k), 'doubles_iff_a_repeat_so_far': VL.is_nil(double) == NoDup(take(vs, k))}
+
+    @property
+    def loops(self):
+        return {0: LoopContract(self._inv)}
+
+    def post(self, A, st0, out):
+        if out.kind == 'raise':
+            return never_raises(out)
+        return [('empty_iff_pairwise_different', z3.And(V.is_List(out.value), VL.is_nil(V.items(out.value)) == NoDup(V.items(A['values']))))]
+
+
+CONTRACTS.append(ValueUniqueness())
+
+
+from pyvc.values import MapList            # noqa: E402
+from pyvc.builtins import str_of           # noqa: E402
+
+EnumValueTexts = MapList('enum_value_text', lambda ev: str_of(attr0(ev, 'value')))
+
+
+def enum_values_unique(p):
+    t = V.snd(p)
+    return z3.Implies(exact(t, 'GraphQLEnumType'), NoDup(EnumValueTexts(V.items(attr0(t, 'values')))))
+
+
+EnumsUnique = ForallList('enum_type_has_unique_values', enum_values_unique)
+AllEnumValueObjects = ForallList('enum_value_object', lambda ev: z3.And(exact(ev, 'GraphQLEnumValue'), V.oref(ev) >= 0))
+AllEnumEntries = ForallList('enum_type_entry', lambda p: z3.And(V.is_Pair(p), V.is_Str(V.fst(p)), V.is_Obj(V.snd(p)),
+                                                               z3.Implies(exact(V.snd(p), 'GraphQLEnumType'), z3.And(V.oref(V.snd(p)) >= 0, V.is_List(attr0(V.snd(p), 'values')),
+                                                                                                                     AllEnumValueObjects(V.items(attr0(V.snd(p), 'values')))))))
+
+
+class ValidateEnumValuesUnique(Contract):
+    """_validate_enum_values_are_unique: reports iff some enum type declares the same value (by its text) twice"""
+    key = S_ + '_validate_enum_values_are_unique'
+    property_ids = ('C12',)
+    params = ['self']
+    self_class = 'GraphQLSchema'
+    comp_maps = {0: (EnumValueTexts, lambda en: [])}
+
+    def args(self, en, names):
+        self.A = super().args(en, names)
+        return self.A
+
+    def pre(self, A, st):
+        s = A['self']
+        return [('schema', z3.And(exact(s, 'GraphQLSchema'), V.oref(s) >= 0, V.is_Dict(attr0(s, 'type_definitions')), AllEnumEntries(V.ditems(attr0(s, 'type_definitions')))))]
+
+    def _outer(self, en, st, k, st0):
+        errors = V.items(en.read(st.env['errors'], st))
+        return {'errors_iff_a_duplicated_enum_value_so_far': VL.is_nil(errors) == EnumsUnique(take(V.ditems(attr0(self.A['self'], 'type_definitions')), k))}
+
+    def _inner(self, en, st, j, st0):
+        errors = V.items(en.read(st.env['errors'], st))
+        e0 = V.items(en.read(st0.env['errors'], st0))
+        return {'one_error_per_duplicate': VL.is_nil(errors) == z3.And(VL.is_nil(e0), j <= 0)}
+
+    @property
+    def loops(self):
+        return {0: LoopContract(self._outer), 1: LoopContract(self._inner)}
+
+    def post(self, A, st0, out):
+        if out.kind == 'raise':
+            return never_raises(out)
+        tl = V.ditems(attr0(A['self'], 'type_definitions'))
+        return [('reports_iff_some_enum_repeats_a_value', z3.And(V.is_List(out.value), VL.is_nil(V.items(out.value)) == EnumsUnique(tl)))]
+
+
+CONTRACTS.append(ValidateEnumValuesUnique())
